@@ -382,6 +382,7 @@ func TestVerif_C11_EncDec(t *testing.T) {
 				return
 			}
 			rest := stream
+			var keptRaw [][]byte
 			for k, f := range frames {
 				next := len(stream)
 				if k+1 < len(frames) {
@@ -409,8 +410,17 @@ func TestVerif_C11_EncDec(t *testing.T) {
 				if !ok {
 					return
 				}
+				keptRaw = append(keptRaw, got)
 				rest = left
 			}
+			// what Decode returned for the earlier frames must still be what it was, after the later Decode calls on the same decoder
+			for k, g := range keptRaw {
+				if !bytes.Equal(g, frames[k].raw) {
+					m.Violationf("c11:earlier-raw-block-overwritten:own-stream", rep, "the raw block returned for frame %d of %d was changed by a later Decode on the same decoder", k, depth)
+					break
+				}
+			}
+			m.Count("raw_blocks_rechecked_after_later_decodes", int64(len(keptRaw)))
 			m.Count("streams_completed", 1)
 		})
 	})
